@@ -1,9 +1,35 @@
 (* C01/C02/C03: the literals the hand-written scanners of coq/Yanny/Parse.v and Render.v were written for.
-   Which scanner implements which regular expression of yanny.py is listed in notes/C01.md and in the
-   definition scanner_regexes below (method, re function, literal): get_token -> Parse.get_token;
-   protect -> Render.protect; type -> Parse.struct_entry, find_type, check_decl; isarray -> Parse.match_char_arr;
-   isenum -> Parse.enum_entry, split_commas; _parse -> Parse.join_cont, match_typedef, findall_td, remove_td,
-   words, defs, cut_array, struct_columns, skip_line, double_braces.
+   Which scanner implements which regular expression of yanny.py: the entries of scanner_regexes below are in source
+   order (method of class yanny, re function, literal); by entry number (the literals themselves cannot be quoted inside
+   a Coq comment):
+
+    1 get_token, quoted token          Parse.get_token, quoted branch (span to the closing quote, lstrip of the rest)
+    2 get_token, braced token          Parse.get_token, brace branch (span to the first closing brace, strip, lstrip)
+    3 get_token, split on blanks       Parse.get_token, bare branch (span not_ws, lstrip; maxsplit 1)
+    4 protect, blank search            Render.needs_quote / Render.protect (together with the len = 0 and hash tests)
+    5 type, trailing name of a typedef Parse.struct_entry (name group of match_typedef KW_STRUCT) + lookup_def: the typedef is
+                                       selected by its own trailing name (the repaired lookup of fixes/C01-typedef-lookup-by-name)
+    6 type, declaration of VAR         Parse.find_type = word_splits_aux (the non-blank word and the blanks before VAR)
+                                       + check_decl (VAR, then a semicolon or an opening bracket)
+                                       + last_close_semi (greedy up to the last closing bracket that is followed by a semicolon);
+                                       normalise_array is the pair of str.replace calls that follows the match
+    7 isarray, char with two brackets  Parse.match_char_arr + search_char_arr (used by Parse.isarray)
+    8 isenum, enum typedef             Parse.enum_entry (match_typedef KW_ENUM: body and name groups)
+    9 isenum, split on commas          Parse.split_commas (on the stripped body)
+   10 _parse, continuation lines       Parse.join_cont (join_cont_aux, last_nl: the blank run is greedy up to its LAST newline)
+   11 12 _parse, findall typedefs      Parse.findall_td KW_STRUCT / KW_ENUM (match_typedef at every position, leftmost, non-overlapping)
+   13 14 _parse, remove typedefs       Parse.remove_td KW_STRUCT / KW_ENUM
+   15 _parse, body and name of a struct  Parse.struct_entry / build_symtab (match_typedef KW_STRUCT on a text findall returned; there
+                                       the optional and the mandatory name agree)
+   16 _parse, declarations of a body   Parse.words + split_def_word + defs (struct_columns)
+   17 _parse, split of one declaration the two words of one match, inside Parse.defs
+   18 _parse, array suffix of a column Parse.cut_array
+   19 20 _parse, comment / blank line  Parse.skip_line
+   21 _parse, double braces            Parse.match_dbl + dbl_aux + double_braces (the tokenising rewrite of fixes/C01-double-brace-in-strings)
+
+   trailing_comment() uses no regular expression (str.rfind / count): Parse.trailing_comment.  convert() and dtype() use the
+   tables below: Parse.classify / conv1 (intTypes, floatTypes), Parse.col_dtype (dtmap of dtype), Render.ctype_word (dtmap of
+   dtype_to_struct); protect()'s condition: Render.needs_quote.
    What a regex MEANS is tied to its scanner by the correspondence runs of C01/C02/C03 only; what this file
    adds is the obligation that the source still uses exactly these literals (Generated/YannyLits.v is
    regenerated from yanny.py on every run). *)
